@@ -31,6 +31,7 @@ def main(argv: list[str]) -> int:
         mach = runner.load_machine(req["prop"])
         if hasattr(mach, "preload"):
             mach.preload()
+        seams.record_pristine()
         kf = [k for k in runner.load_known_findings().get("findings", []) if k.get("property") == req["prop"]]
         r = execute(req["prop"], mach.run, req["seed"], req["tape"], req.get("tier", "quick"), kf)
         print("RESULT " + json.dumps(runner.result_to_plain(r), default=str))
@@ -67,6 +68,7 @@ def main(argv: list[str]) -> int:
         mach = runner.load_machine(prop)
         if hasattr(mach, "preload"):
             mach.preload()
+        seams.record_pristine()
         kf = [k for k in runner.load_known_findings().get("findings", []) if k.get("property") == prop]
         r = execute(prop, mach.run, derive_seed(verif_seed, prop, args.run_index), None, args.tier, kf,
                     args.run_index)
